@@ -143,6 +143,17 @@ namespace simmpi
       return 0;
     }
 
+    int rank_of(int task)
+    {
+      if(!G) return -1;
+      for(int t = task; t >= 0; t = sim::parent_of(t))
+      {
+        auto it = G->rank_of_task.find(t);
+        if(it != G->rank_of_task.end()) return it->second;
+      }
+      return -1;
+    }
+
     CommRec& comm_rec(MPI_Comm c, const char* fn)
     {
       if(!G) usage(std::string(fn) + " outside a simulated world");
@@ -552,6 +563,8 @@ namespace simmpi
     delete G;
     G = nullptr;
   }
+
+  int rank_of_task_for_race(int task) { return rank_of(task); }
 }
 
 using namespace simmpi;
@@ -1274,3 +1287,8 @@ extern "C"
   int MPI_File_read_ordered(MPI_File fh, void* buf, int count, MPI_Datatype dt, MPI_Status* st) { return file_ordered(fh, buf, nullptr, count, dt, st, false, "MPI_File_read_ordered"); }
   int MPI_File_write_ordered(MPI_File fh, const void* buf, int count, MPI_Datatype dt, MPI_Status* st) { return file_ordered(fh, nullptr, buf, count, dt, st, true, "MPI_File_write_ordered"); }
 }
+
+// race flavour (sim/race_rt.cpp): simulated ranks are processes - memory that two tasks of different ranks both touch
+// (library statics, harness bookkeeping) is shared only because the ranks live in one address space here
+namespace simmpi { int rank_of_task_for_race(int task); }
+extern "C" int sim_race_domain(int task) { return simmpi::rank_of_task_for_race(task); }
